@@ -33,21 +33,149 @@ def planted():
                              ["colview", 0, 0], ["setv", 0, ["slice", 1, 2, None], ["l", [b]]], ["fp", 0], ["fp", 1]]})
         out.append({"prog": [["newtab_dict", [["a", [5, a, 7]], ["b", [1, 2, 3]]]], ["drop", 0], ["fp", 0],
                              ["setattr", 0, 0, ["lit", [5, b, 7]]], ["fp", 0]]})
+    # fingerprint / k writes to ONE column with no fingerprint in between / fingerprint (k = 2, 3, 4: the storage tuple freed by
+    # one write is handed to the next, so after an even number of writes every column sits at the address it had when the
+    # table was fingerprinted), through a live column view, through table cells, and on a bare vector
+    for k in (2, 3, 4):
+        vals = [[11 * (j + 1) + i for i in range(3)] for j in range(k)]
+        tab = ["newtab_dict", [["a", [5, 6, 7]], ["b", [1, 2, 3]]]]
+        out.append({"prog": [tab, ["drop", 0], ["fp", 0], ["colview", 0, 0]]
+                            + [["setv", 0, ["int", j % 3], ["s", vals[j][0]]] for j in range(k)] + [["fp", 1], ["fp", 0]]})
+        out.append({"prog": [tab, ["drop", 0], ["fp", 0]]
+                            + [["sett", 0, ["cell", j % 3, 0, vals[j][1]]] for j in range(k)] + [["fp", 0]]})
+        out.append({"prog": [tab, ["drop", 0], ["fp", 0], ["colview", 0, 1]]
+                            + [["setv", 0, ["slice", 0, 2, None], ["l", vals[j][:2]]] for j in range(k)] + [["fp", 1]]})
+        out.append({"prog": [["newvec", [5, 6, 7, 8], "a", None], ["fp", 0]]
+                            + [["setv", 0, ["int", j % 4], ["s", vals[j][2]]] for j in range(k)] + [["fp", 0]]})
+    # long vectors (the rolling combination may be computed in blocks): neighbours exchanged at every position around 64 / 128
+    for n, at in ((70, 63), (70, 31), (130, 127), (130, 63), (200, 128), (66, 64)):
+        base = [3 * i + 1 for i in range(n)]
+        out.append({"prog": [["newvec", base, "a", None], ["fp", 0], ["setv", 0, ["int", at], ["s", base[at + 1]]], ["fp", 0],
+                             ["setv", 0, ["int", at + 1], ["s", base[at]]], ["fp", 0]]})
+        out.append({"prog": [["newvec", base, "a", None], ["fp", 0], ["setv", 0, ["int", at], ["s", base[at] + 1]],
+                             ["setv", 0, ["int", at + 1], ["s", base[at + 1] - 1]], ["fp", 0]]})
     return out
+
+
+def tight_cases(rng, n):
+    """fingerprint / k writes back to back / fingerprint, run WITHOUT the per-step observation of the heap histories (which
+    allocates between the steps): nothing of the program's own disturbs CPython's recycling of the storage tuples, so a memo
+    keyed on storage identity sees, after an even number of writes, the very identity it was taken at.  Decided by the oracle
+    alone: the fingerprint afterwards is that of a freshly built object with the same contents."""
+    cs = []
+    for _ in range(n):
+        rows = rng.randint(1, 6)
+        ncols = rng.randint(1, 3)
+        cols = [[rng.randrange(-3, 50) for _ in range(rows)] for _ in range(ncols)]
+        k = rng.choice([1, 2, 2, 2, 3, 4, 4, 6])
+        j = rng.randrange(ncols)
+        via = rng.choice(["vector", "colview", "cell", "cell", "colview", "setattr", "mixed"])
+        writes = [[rng.randrange(rows), rng.choice([rng.randrange(60, 99), rng.randrange(60, 99) + 0.5, None])
+                   if rng.random() < 0.25 else rng.randrange(60, 99)] for _ in range(k)]
+        c = {"op": "tight", "cols": cols, "col": j, "via": via, "writes": writes, "fp_first": rng.random() < 0.85}
+        if rows >= 2 and via != "setattr" and rng.random() < 0.35:
+            # ONE further write of several cells at once that both widens the column and stores a None
+            idx = rng.sample(range(rows), 2)
+            c["multi"] = [idx, rng.choice([[rng.randrange(60, 99) + 0.5, None], [None, rng.randrange(60, 99) + 0.5],
+                                           [rng.randrange(60, 99), None]])]
+            if rng.random() < 0.5:
+                c["cols"] = [[bool(x % 2) for x in col] if q == j else col for q, col in enumerate(cols)]
+                c["writes"] = []
+        cs.append(c)
+    return cs
+
+
+def _observe_tight(case):
+    from serif import Table, Vector
+    cols, j, via = case["cols"], case["col"], case["via"]
+    if via == "vector":
+        obj = Vector(list(cols[j]), name="a")
+        target = obj
+    else:
+        obj = Table([Vector(list(c), name=f"c{q}") for q, c in enumerate(cols)])
+        target = obj.cols()[j] if via in ("colview", "mixed") else None
+    before = obj.fingerprint() if case["fp_first"] else None
+    ws = case["writes"]
+    if via == "vector" or via == "colview":
+        for i, x in ws:
+            target[i] = x
+    elif via == "cell":
+        for i, x in ws:
+            obj[i, j] = x
+    elif via == "setattr":
+        for i, x in ws:
+            cur = list(obj.cols()[j])
+            cur[i] = x
+            setattr(obj, f"c{j}", cur)
+    else:
+        for q, (i, x) in enumerate(ws):
+            if q % 2:
+                obj[i, j] = x
+            else:
+                target[i] = x
+    if case.get("multi"):
+        idx, vals = case["multi"]
+        if via in ("vector", "colview", "mixed"):
+            target[list(idx)] = list(vals)
+        else:
+            obj[list(idx), j] = list(vals)
+    after = obj.fingerprint()
+    if via == "vector":
+        cells = list(obj._underlying)
+        fresh = Vector(cells, name="a")
+        contents = [repr(x) for x in cells]
+    else:
+        fresh = Table([Vector(list(c._underlying), name=c.name) for c in obj.cols()])
+        contents = [[repr(x) for x in c._underlying] for c in obj.cols()]
+    return {"before": before, "after": after, "fresh": fresh.fingerprint(), "contents": contents,
+            "again": obj.fingerprint()}
 
 
 def streams(rng, tier):
     n = 500 if tier == "quick" else 4000
-    return [("planted", planted()), ("histories", [{"prog": H.gen_program(rng, rng.randint(10, 40), MIX)} for _ in range(n)])]
+    return [("planted", planted()), ("histories", [{"prog": H.gen_program(rng, rng.randint(10, 40), MIX)} for _ in range(n)]),
+            ("tight", tight_cases(rng, 400 if tier == "quick" else 4000))]
 
 
 def observe(case):
+    if case.get("op") == "tight":
+        try:
+            return _observe_tight(case)
+        except Exception as e:                               # noqa: BLE001
+            return {"broken": f"{type(e).__name__}: {e}"[:200]}
     return H.observe_program(case)
 
 
-emit = H.emit_trace
-oracle = H.oracle_for(("C16",))
-shrink = H.shrink_program
+def emit(case, obs):
+    if case.get("op") == "tight":
+        return "(@nil tstep)"                                # decided by the oracle alone
+    return H.emit_trace(case, obs)
+
+
+_heap_oracle = H.oracle_for(("C16",))
+
+
+def oracle(case, obs):
+    if case.get("op") != "tight":
+        return _heap_oracle(case, obs)
+    if "broken" in obs:
+        return f"tight-observer: {obs['broken']}"
+    what = (f"fingerprint() after {len(case['writes'])} back-to-back write(s) ({case['via']})"
+            + (f" and the write [{case['multi'][0]}] = {case['multi'][1]}" if case.get("multi") else "")
+            + f" to column {case['col']} of {case['cols']}" + (" (fingerprinted before)" if case["fp_first"] else ""))
+    if obs["after"] != obs["fresh"]:
+        return (f"C16-stale: {what} returned {obs['after']}; a freshly built object with the same contents {obs['contents']} "
+                f"gives {obs['fresh']}")
+    if obs["again"] != obs["after"]:
+        return f"C16-unstable: {what}: a second call returned {obs['again']} after {obs['after']}"
+    return None
+
+
+def shrink(case):
+    if case.get("op") == "tight":
+        ws = case["writes"]
+        return [dict(case, writes=ws[:i] + ws[i + 1:]) for i in range(len(ws))] if len(ws) > 1 else []
+    return H.shrink_program(case)
 
 
 def known(case, obs, why):
@@ -55,10 +183,14 @@ def known(case, obs, why):
 
 
 def nontrivial(case, obs):
+    if case.get("op") == "tight":
+        return "broken" not in obs and obs.get("before") is not None and obs.get("before") != obs.get("after")
     st = obs.get("stats") or {}
     return st.get("fp_after_write", 0) >= 1
 
 
 def describe(case, obs, stream):
+    if case.get("op") == "tight":
+        return [f"tight:{case['via']}", f"tight:writes{len(case['writes'])}"]
     st = obs.get("stats") or {}
     return [f"has:{k}" for k in ("fp_calls", "fp_after_write", "writes_ok", "writes_alias") if st.get(k)]
